@@ -25,6 +25,15 @@ def streams(tier, seed):
         for dm in dims:
             out.append([new_op(rng, 0, dims=dims, shape=[2, 3, 4]),
                         {"op": "unfold", "obj": 0, "dim": dm}, {"op": "fold", "obj": 0}])
+    # dimension names that CONTAIN one another (t inside t2 and t10, x inside xy, f inside f2): an operation that names one
+    # dimension touches that dimension only
+    for dims, old_, new_ in ((["t2", "B0", "t"], "t", "tau"), (["t", "t10", "t2"], "t", "f"), (["xy", "x", "y"], "x", "z"),
+                             (["f2", "f", "f22"], "f2", "g"), (["Power", "Pow", "P"], "P", "Q"), (["ab", "b", "a"], "a", "b2")):
+        a = new_op(rng, 0, dims=dims, shape=[2, 3, 4], cplx=False)
+        out.append([a, {"op": "rename", "obj": 0, "dim": old_, "new": new_}])
+        out.append([a, {"op": "reorder", "obj": 0, "dims": [old_]}, {"op": "rename", "obj": 0, "dim": old_, "new": new_}])
+        out.append([a, {"op": "unfold", "obj": 0, "dim": old_}, {"op": "fold", "obj": 0}])
+        out.append([a, {"op": "sort", "obj": 0, "dim": old_}])
     # unfold ... fold on objects whose storage is NOT C-contiguous: after reorder to every permutation (a transposed view;
     # the full reversal is Fortran-contiguous) and every dim, for 3-D; reversed 4-D
     for perm in _it.permutations(range(3)):
